@@ -1128,7 +1128,7 @@ func genServe(p *pkg, fields []string) string {
 		b.WriteString("def " + ln + " : Stmt :=\n  scope (" + ob.lean("  ") + ")\n\n")
 		others = append(others, ln)
 	}
-	b.WriteString("/-- every extracted entry point -/\ndef entryPoints : List Stmt := [serveHTTP" )
+	b.WriteString("/-- every extracted entry point -/\ndef entryPoints : List Stmt := [serveHTTP")
 	for _, o := range others {
 		b.WriteString(", " + o)
 	}
@@ -1163,7 +1163,7 @@ func genServe(p *pkg, fields []string) string {
 			fmt.Fprintf(&b, "def what%s : Nat := %d\n", dn, 1000000+i)
 		}
 	}
-	for _, n := range []string{"Request", "Response", "handlers", "router", "index"} {
+	for _, n := range []string{"Request", "Response", "handlers", "router", "index", "paramCount"} {
 		fmt.Fprintf(&b, "def f%s : Nat := %d\n", strings.ToUpper(n[:1])+n[1:], x.fieldOf(token.NoPos, n))
 	}
 	b.WriteString("\nend Rivaas.Gen.Serve\n")
